@@ -24,19 +24,24 @@ pub enum Shape {
     /// descriptor chain: segment lengths, gap between segments, alignment offset of the first
     /// segment relative to a bitmap page, second half of the segments in region B
     Virt { lens: Vec<usize>, gap: usize, align: usize, split_regions: bool },
+    /// descriptor chain at a region edge: the first `k` segments lie back to back and end exactly at the end of guest
+    /// memory region A, the others lie back to back from the first byte of region B; the two regions are adjacent in
+    /// HOST memory (one backing mapping) and far apart in guest-physical space, each with its own dirty bitmap
+    Edge { lens: Vec<usize>, k: usize },
 }
 
 impl Shape {
     pub fn total(&self) -> usize {
         match self {
             Shape::Fuse(n) => *n,
-            Shape::Virt { lens, .. } => lens.iter().sum(),
+            Shape::Virt { lens, .. } | Shape::Edge { lens, .. } => lens.iter().sum(),
         }
     }
     pub fn label(&self) -> String {
         match self {
             Shape::Fuse(n) => format!("fusedev[{}]", n),
             Shape::Virt { lens, gap, align, split_regions } => format!("virtio{:?}gap{}align{}{}", lens, gap, align, if *split_regions { "AB" } else { "" }),
+            Shape::Edge { lens, k } => format!("virtio{:?}edge-after-{}", lens, k),
         }
     }
     pub fn segs(&self) -> Vec<Seg> {
@@ -52,6 +57,19 @@ impl Shape {
                     }
                     v.push(Seg { addr: a, len: *l as u32 });
                     a += (*l + *gap) as u64;
+                }
+                v
+            }
+            Shape::Edge { lens, k } => {
+                let mut v = Vec::new();
+                let in_a: usize = lens[..*k].iter().sum();
+                let mut a = A_BASE + EDGE_REGION as u64 - in_a as u64;
+                for (i, l) in lens.iter().enumerate() {
+                    if i == *k {
+                        a = B_BASE;
+                    }
+                    v.push(Seg { addr: a, len: *l as u32 });
+                    a += *l as u64;
                 }
                 v
             }
@@ -104,6 +122,12 @@ pub fn shapes(level: u8, aligns: &[usize]) -> Vec<Shape> {
         if l.len() >= 2 {
             v.push(Shape::Virt { lens: l.clone(), gap: 0, align: aligns[0], split_regions: false });
             v.push(Shape::Virt { lens: l.clone(), gap: 8, align: aligns[0], split_regions: true });
+            // the chain crosses from the last bytes of one guest memory region to the first bytes of another
+            if (l.len() <= 3 || level == 2) && l.iter().all(|x| *x > 0) {
+                for k in 1..l.len() {
+                    v.push(Shape::Edge { lens: l.clone(), k });
+                }
+            }
         }
     }
     v
@@ -700,6 +724,9 @@ pub struct Outcome {
     pub summary: String,
 }
 
+/// size of each data region of the transport rig
+pub const EDGE_REGION: usize = 1 << 16;
+
 pub struct TRig {
     pub dev: FuseDev,
     pub virt: Virtio,
@@ -712,7 +739,7 @@ pub struct TRig {
 
 impl TRig {
     pub fn new(page: usize) -> TRig {
-        TRig { dev: FuseDev::new(), virt: Virtio::new(page, 1 << 16, 1 << 16), ctx: Ctx::new(), predirty: 0 }
+        TRig { dev: FuseDev::new(), virt: Virtio::new_adjacent(page, EDGE_REGION, EDGE_REGION), ctx: Ctx::new(), predirty: 0 }
     }
 }
 
@@ -755,6 +782,7 @@ pub fn run_reader_seq(rig: &mut TRig, shape: &Shape, seq: &[(usize, ROp)]) -> Ou
                 c04.get_or_insert("request buffer or its canaries modified by reader operations".into());
             }
         }
+        Shape::Edge { .. } => return Outcome { applied: None, c04: None, c17: None, panic: None, summary: String::new() },
         Shape::Virt { .. } => {
             let segs = shape.segs();
             let virt = &rig.virt;
@@ -863,14 +891,16 @@ pub fn run_writer_seq(rig: &mut TRig, shape: &Shape, seq: &[(usize, WOp)]) -> Ou
                 }
             }
         }
-        Shape::Virt { .. } => {
+        Shape::Virt { .. } | Shape::Edge { .. } => {
             let segs = shape.segs();
             let virt = &rig.virt;
             let page = virt.page as u64;
             let span = |s: &Seg| {
-                let lo = (s.addr - PAD as u64) / page * page;
-                let hi = (s.addr + s.len as u64 + PAD as u64 + page - 1) / page * page;
-                (lo, (hi - lo) as usize)
+                // the surroundings of a segment, clamped to the guest memory region it lies in
+                let (rbase, rsize) = if s.addr >= B_BASE { (B_BASE, virt.b_size) } else { (A_BASE, virt.a_size) };
+                let lo = ((s.addr.saturating_sub(PAD as u64)) / page * page).max(rbase);
+                let hi = ((s.addr + s.len as u64 + PAD as u64 + page - 1) / page * page).min(rbase + rsize as u64);
+                (lo, (hi.max(lo) - lo) as usize)
             };
             for s in &segs {
                 let (lo, len) = span(s);
@@ -1127,7 +1157,7 @@ pub fn run(args: &Args, which: &str) -> Report {
         ex.depth = *depth;
         let shs: Vec<Shape> = shapes(*rich_shapes, if *rich_shapes == 0 && aligns.len() > 1 { &aligns[..3] } else { &aligns })
             .into_iter()
-            .filter(|s| which != "C17" || matches!(s, Shape::Virt { .. }))
+            .filter(|s| which != "C17" || matches!(s, Shape::Virt { .. } | Shape::Edge { .. }))
             .collect();
         total_shapes += shs.len();
         let rops = reader_ops(*rich_ops);
